@@ -192,7 +192,7 @@ class World:
     def __init__(self, env):
         self.env = env
         self.p = lw.Parameter(env.R[1], label="p")
-        self.p2 = lw.Parameter(env.R2)
+        self.p2 = lw.Parameter(env.R2, label="p")      # same label: only identity tells the two apart
         self.pd = lw.ParameterDict(a=self.p, b=self.p2)
         self.circs = []     # dicts: tmpl, circ, frozen (None | (v, v2))
 
@@ -296,7 +296,7 @@ def check_world(w, case, acc):
 
 def explore_b(env, depth):
     g, g2 = env.R[1], env.L[1]
-    alpha = [("set", v) for v in (g, g2, 0, 1, 1.5, -0.2)] + [("set2", v) for v in (env.R2, 1.25)] \
+    alpha = [("set", v) for v in (g, g2, 0, 1, 1.5, -0.2)] + [("set2", v) for v in (env.R2, 1.25, g)] \
         + [("pdset", g2), ("pdset", 1.5), ("minb", 0), ("maxb", 1), ("maxb", None), ("minb", None)] \
         + [("make", t) for t in TEMPLATES] + [("copy",), ("freeze",)] \
         + [("rewrite", r) for r in ("unpack", "compress", "remove_nonadj")]
